@@ -196,12 +196,19 @@ def shapes_to_rdf(shapes, explicit_types=True):
                 if c[4]:
                     g.add((n, SH.qualifiedValueShapesDisjoint, Literal(True)))
             else:
-                raise ValueError(k)
+                from . import leaves
+                if not leaves.leaf_to_rdf(g, n, c):
+                    raise ValueError(k)
     return g
 
 
-def comp_to_coq(I, c):
+def comp_to_coq(I, c, W=None, value_terms=()):
     k = c[0]
+    if W is not None:
+        from . import leaves
+        r = leaves.leaf_to_coq(I, W, c, value_terms)
+        if r is not None:
+            return r
     zopt = lambda z: "None" if z is None else "(Some (%d)%%Z)" % z
     if k == "class":
         return "CLeaf (LClass %s)" % I.terms(c[1])
@@ -228,7 +235,7 @@ def comp_to_coq(I, c):
     raise ValueError(k)
 
 
-def shape_to_coq(I, s):
+def shape_to_coq(I, s, W=None, value_terms=()):
     t = s["targets"]
     sev = s["sev"] if s["sev"] is not None else SH.Violation
     return (
@@ -244,13 +251,13 @@ def shape_to_coq(I, s):
             I.terms(t["classes"]),
             I.terms(t["subjects_of"]),
             I.terms(t["objects_of"]),
-            "; ".join("(%s)" % comp_to_coq(I, c) for c in s["comps"]),
+            "; ".join("(%s)" % comp_to_coq(I, c, W, value_terms) for c in s["comps"]),
         )
     )
 
 
-def env_to_coq(I, shapes):
-    return "[" + ";\n   ".join(shape_to_coq(I, s) for s in shapes) + "]"
+def env_to_coq(I, shapes, W=None, value_terms=()):
+    return "[" + ";\n   ".join(shape_to_coq(I, s, W, value_terms) for s in shapes) + "]"
 
 
 def opts_to_coq(I, o):
@@ -281,7 +288,10 @@ def parse_result(rg, r):
     src = next(rg.objects(r, SH.sourceShape))
     sev = next(rg.objects(r, SH.resultSeverity))
     details = [parse_result(rg, d) for d in rg.objects(r, SH.detail)]
-    return (focus, vals[0] if vals else None, comp, src, sev, details)
+    paths = list(rg.objects(r, SH.resultPath))
+    # an IRI path is compared as such; a complex path (copied blank-node structure) only by its presence
+    path = None if not paths else (paths[0] if isinstance(paths[0], URIRef) else "complex")
+    return (focus, vals[0] if vals else None, comp, src, sev, details, path, len(vals), len(paths))
 
 
 def parse_report(rg):
@@ -291,10 +301,11 @@ def parse_report(rg):
 
 
 def result_to_coq(I, r):
-    f, v, comp, src, sev, details = r
-    return "VR (%s) %s %d (%s) (%s) [%s]" % (
+    f, v, comp, src, sev, details, path = r[:7]
+    return "VR (%s) %s %s %d (%s) (%s) [%s]" % (
         I.term(f),
         enc.coq_opt(I.term(v)) if v is not None else "None",
+        "None" if path is None else ("(Some (BN 0))" if path == "complex" else enc.coq_opt(I.term(path))),
         I.iri_num(comp),
         I.term(src),
         I.term(sev),
@@ -323,9 +334,9 @@ def observed_to_coq(I, obs):
 
 
 def result_key(r):
-    f, v, comp, src, sev, details = r
+    f, v, comp, src, sev, details, path = r[:7]
     return (f.n3(), v.n3() if v is not None else None, str(comp).rsplit("#")[-1], src.n3(), str(sev).rsplit("#")[-1],
-            sorted((result_key(d) for d in details), key=str))
+            sorted((result_key(d) for d in details), key=str), path if path in (None, "complex") else path.n3())
 
 
 def describe_case(shapes_graph, data_graph, opts, obs):
